@@ -18,6 +18,7 @@ import (
 	"encoding/json"
 	"fmt"
 	"sync"
+	"time"
 
 	"github.com/enbility/spine-go/api"
 	"github.com/enbility/spine-go/model"
@@ -42,7 +43,42 @@ type logItem struct {
 	ev  hx.Zs  // event observation (already encoded) when ski < 0
 }
 
+// overlap is a registry call of another peer waiting to be delivered while a teardown runs
+// (operation 22, coq/Model/StackX.v During).  It is delivered on its own goroutine from inside
+// the removal cascade: on the first subscription-removed (binding-removed for a binding call)
+// event of the teardown, i.e. while the registry concerned is inside Remove...ForEntity.
+type overlap struct {
+	sub     bool // the call concerns the subscription registry
+	deliver func()
+	started bool
+	entered chan struct{}
+	done    chan struct{}
+}
+
+var (
+	ovMu    sync.Mutex
+	ovStats = map[string]int{}
+)
+
+// OverlapStats reports how the overlapped calls of this process were delivered.
+func OverlapStats() map[string]int {
+	ovMu.Lock()
+	defer ovMu.Unlock()
+	m := map[string]int{}
+	for k, v := range ovStats {
+		m[k] = v
+	}
+	return m
+}
+
+func ovCount(k string) {
+	ovMu.Lock()
+	ovStats[k]++
+	ovMu.Unlock()
+}
+
 type World struct {
+	ov     *overlap
 	mu     sync.Mutex
 	log    []logItem
 	local  *spine.DeviceLocal
@@ -340,7 +376,32 @@ func (w *World) HandleEvent(p api.EventPayload) {
 	}
 	w.mu.Lock()
 	w.log = append(w.log, logItem{ski: -1, ev: z})
+	d := w.ov
+	fire := d != nil && !d.started && p.ChangeType == api.ElementChangeRemove &&
+		((d.sub && p.EventType == api.EventTypeSubscriptionChange) || (!d.sub && p.EventType == api.EventTypeBindingChange))
+	if fire {
+		d.started = true
+	}
 	w.mu.Unlock()
+	if fire {
+		// the registry is publishing a removal (and may hold its lock): deliver the other peer's call
+		// now, on its own goroutine - never synchronously - and give it a moment.  The waits are
+		// bounded: a call that does not get going in time is simply delivered later (the check may
+		// then miss an interleaving, it cannot report a false one).
+		go func() {
+			close(d.entered)
+			d.deliver()
+			close(d.done)
+		}()
+		select {
+		case <-d.entered:
+			select {
+			case <-d.done:
+			case <-time.After(2 * time.Millisecond):
+			}
+		case <-time.After(100 * time.Millisecond):
+		}
+	}
 }
 
 // ---- inbound datagrams
